@@ -87,6 +87,12 @@ type Case struct {
 	// stdout pipe is left full and SIGIO (the documented "dump the ledger" signal) is sent, so the tracker
 	// blocks in its dump at its next tick; transactions n.. are streamed meanwhile, then stdout is drained.
 	Stall int `json:"stall,omitempty"`
+	// DecodeErrLsn != 0: the walsender raises a decoding ERROR (ErrorResponse, stream over) instead of
+	// sending the row change at this position, every time a stream reaches it; IDENTIFY_SYSTEM then
+	// reports that transaction's COMMIT position.  The rest of that transaction is the gap pg-bifrost
+	// announces when it skips ahead (C01's exception); the transactions behind it must still be
+	// acknowledged (C02).  Never in the last transaction.
+	DecodeErrLsn uint64 `json:"decode_err_lsn,omitempty"`
 	// Trickle: the transactions arrive as a steady trickle (pause_ms between them, shorter than the update
 	// age, for longer than the max age) on ONE partition key: the open batch must be handed to the sink one
 	// tick after the configured batch-flush-max-age although it keeps receiving records (C16), whatever the
@@ -155,7 +161,35 @@ func (c Case) passes(table string) bool {
 }
 
 // expected: the change must reach the sink (passes the filter, not dropped as over-size)
-func (c Case) expected(ch Change) bool { return c.passes(ch.Table) && !ch.big() }
+func (c Case) expected(ch Change) bool { return c.passes(ch.Table) && !ch.big() && !c.skipped(ch) }
+
+// errTxn: index of the transaction the scripted decoding error lies in (-1: none)
+func (c Case) errTxn() int {
+	if c.DecodeErrLsn != 0 {
+		for i, t := range c.Txns {
+			for _, ch := range t.Changes {
+				if ch.Lsn == c.DecodeErrLsn {
+					return i
+				}
+			}
+		}
+	}
+	return -1
+}
+
+// skipped: the change is never streamed: it is at or behind the decoding error in its transaction
+func (c Case) skipped(ch Change) bool {
+	if i := c.errTxn(); i >= 0 {
+		hit := false
+		for _, x := range c.Txns[i].Changes {
+			hit = hit || x.Lsn == c.DecodeErrLsn
+			if hit && x.Lsn == ch.Lsn {
+				return true
+			}
+		}
+	}
+	return false
+}
 
 func changeText(ch Change) string {
 	s := fmt.Sprintf("table %s: %s: id[integer]:%d", ch.Table, ch.op(), ch.Lsn)
@@ -173,6 +207,9 @@ func (c Case) script() fakepg.Script {
 			tx.Changes = append(tx.Changes, fakepg.Change{LSN: ch.Lsn, Text: changeText(ch)})
 		}
 		sc.Txns = append(sc.Txns, tx)
+	}
+	if i := c.errTxn(); i >= 0 {
+		sc.DecodeErrAt, sc.DecodeErrXLogPos = c.DecodeErrLsn, c.Txns[i].Commit
 	}
 	return sc
 }
@@ -330,6 +367,7 @@ type gate struct {
 
 type world struct {
 	firstData bool // the first row change has been streamed (logged once)
+	decErrs   int  // times the scripted decoding error was raised
 	c  Case
 	mu sync.Mutex
 	t0 time.Time
@@ -857,6 +895,7 @@ type result struct {
 	Log        []LogEv
 	Infra      string // the case is dropped
 	FinalAcked bool   // the last acknowledgement equals the last COMMIT
+	ErrLoop    bool   // the scripted decoding error was raised four times: the stream is re-requested from before it for ever
 	C02Neg     bool   // two full ledger periods after the last sink activity the last COMMIT is still not acknowledged
 	SelfExit   bool   // the child ended by itself after streaming had started
 	Starts     int
@@ -896,6 +935,13 @@ func runCase(c Case) (res result) {
 	defer hs.Close()
 	script := c.script()
 	script.OnStatus, script.OnStart, script.BeforeData = w.onStatus, w.onStart, w.beforeData
+	script.OnDecodeErr = func(n int) {
+		w.mu.Lock()
+		defer w.mu.Unlock()
+		w.decErrs = n
+		w.quietRef = time.Now()
+		w.addLocked(LogEv{K: "decode-error", Lsn: c.DecodeErrLsn, Note: fmt.Sprintf("raised for the %d. time; IDENTIFY_SYSTEM reports %s from now on", n, fakepg.LSNString(script.DecodeErrXLogPos))})
+	}
 	srv, err := fakepg.Start(script)
 	if err != nil {
 		return result{Infra: "port: fakepg: " + err.Error()}
@@ -1008,12 +1054,21 @@ func runCase(c Case) (res result) {
 		if w.sinkSettledLocked() {
 			return true
 		}
+		if w.decErrs >= 4 {
+			// the same decoding error for the fourth time: replication is being re-requested from before
+			// it again and again, nothing behind it will ever be streamed
+			res.ErrLoop = true
+			return true
+		}
 		// silence: nothing was streamed, submitted or accepted for a (stretched) while, and either the
 		// whole stream is out or a held call is what keeps the pipeline (and through it the server) waiting
 		return (w.sentAll || len(w.gates) > 0) && time.Since(w.quietRef) > stretched(400*time.Millisecond)
 	}, deadline)
 	if !settled {
 		return finish("unsettled")
+	}
+	if res.ErrLoop {
+		return finish("decode-error-loop")
 	}
 	w.mu.Lock()
 	holding := len(w.gates) > 0
@@ -1413,6 +1468,14 @@ func monitor(c Case, r result) (vs []core.Violation) {
 	switch {
 	case r.SelfExit:
 		add("C02", "app/process-exited-by-itself", fmt.Sprintf("the process ended by itself (phase %q) with the last acknowledgement at %s, the last COMMIT is %s; its output ended: %s", r.Phase, X(r.LastAck), X(c.lastCommit()), tail(r.ChildTail, 500)))
+	case r.ErrLoop:
+		var st []string
+		for _, e := range r.Log {
+			if e.K == "start" {
+				st = append(st, X(e.Lsn))
+			}
+		}
+		add("C02", "app/server-error-never-skipped", fmt.Sprintf("the walsender raised the same decoding error at %s four times: replication was requested from %s, never from the position IDENTIFY_SYSTEM reports after the error (%s), so the transactions behind it are never streamed or acknowledged (last acknowledgement %s, last COMMIT %s)", X(c.DecodeErrLsn), strings.Join(st, ", "), X(c.Txns[c.errTxn()].Commit), X(r.LastAck), X(c.lastCommit())))
 	case r.C02Neg:
 		add("C02", "app/ack-never-reaches-last-commit", fmt.Sprintf("everything was delivered, every held sink call was released and two ledger periods passed: the last acknowledgement is %s, the last COMMIT is %s", X(r.LastAck), X(c.lastCommit())))
 	}
@@ -1613,6 +1676,25 @@ func trickleShape(rng *rand.Rand) Case {
 	return c
 }
 
+// decodeErrShape: 2-6 transactions; the walsender raises a decoding error at one row change of a
+// transaction that is not the last (also of the first: nothing committed yet), every time it gets there.
+func decodeErrShape(rng *rand.Rand) Case {
+	c := genConfig(rng)
+	c.Mode = "gen-decode-error"
+	for {
+		c.Txns = nil
+		genStream(rng, &c, 2+rng.Intn(5), 4)
+		k := rng.Intn(len(c.Txns) - 1)
+		if rng.Intn(3) == 0 {
+			k = 0
+		}
+		if ch := c.Txns[k].Changes; len(ch) > 0 {
+			c.DecodeErrLsn = ch[rng.Intn(len(ch))].Lsn
+			return c
+		}
+	}
+}
+
 func genCase(rng *rand.Rand) Case {
 	roll := rng.Intn(16)
 	if roll == 15 {
@@ -1790,7 +1872,10 @@ func init() {
 		for i := 0; i < (n+15)/16; i++ { // drawn after the others: their stream of choices is unchanged
 			cases = append(cases, trickleShape(rng))
 		}
-		rep.Rule = "corpus first (directed shapes: interleaved positions across the 4 GiB boundary, filters incl. a fully filtered last transaction, held sink calls incl. one worker with queue depth 1, the three PutRecords limits, six instances of the stalled-tracker race, each of which exposes a seen/written reordering with probability 1/2), then seeded cases: 7/16 plain, 7/16 with 1-2 held sink calls (slow worker; released after a ledger tick), 1/16 limits (>500 records or >5 MiB with an over-size row), 1/16 stalled progress tracker with an earlier transaction's batch held; plus one trickle case per 16 (steady single-row transactions every 15-30 ms on one partition key for longer than the max age, max age 100-400 ms, update age either 60-100 ms or 1.5-3.5 s: C16 through the real flag wiring). 1-6 transactions, 0-4 changes over public.a/b/c and a quoted table, INSERT/UPDATE/DELETE, half with interleaved positions, 1/6 across 0/FFFFFFxx->1/xx, 1/6 high positions, 1/6 whitelist, 1/6 blacklist, 1/4 configured through environment variables. Each case = one run of the REAL BINARY (main.go + app/runner.go wiring) with real flags --workers 1-4, --partition-method (4), --partition-count 1-4, --batcher-routing-method (2), --batch-flush-update-age / --batch-flush-max-age / --batcher-tick-rate 20-60 ms (either age may be the larger), --batch-queue-depth 1-4, --client-buffer-size default/16/256, kinesis --endpoint <fake>. Non-trivial: at least 2 sink calls and (a call was really held, or the stall was achieved, or at least 2 Kinesis partition keys, or a filter removed something); distinct by the case description. No Coq model is evaluated by this component."
+		for i := 0; i < (n+7)/8; i++ {
+			cases = append(cases, decodeErrShape(rng))
+		}
+		rep.Rule = "corpus first (directed shapes: interleaved positions across the 4 GiB boundary, filters incl. a fully filtered last transaction, held sink calls incl. one worker with queue depth 1, the three PutRecords limits, six instances of the stalled-tracker race, each of which exposes a seen/written reordering with probability 1/2), then seeded cases: 7/16 plain, 7/16 with 1-2 held sink calls (slow worker; released after a ledger tick), 1/16 limits (>500 records or >5 MiB with an over-size row), 1/16 stalled progress tracker with an earlier transaction's batch held; plus one decoding-error case per 8 (the fake walsender raises a non-FATAL ERROR at one row change of a transaction that is not the last, again at every later attempt to stream it, and IDENTIFY_SYSTEM then reports that transaction's COMMIT: the rest of it is the announced gap, everything behind it must be acknowledged) and one trickle case per 16 (steady single-row transactions every 15-30 ms on one partition key for longer than the max age, max age 100-400 ms, update age either 60-100 ms or 1.5-3.5 s: C16 through the real flag wiring). 1-6 transactions, 0-4 changes over public.a/b/c and a quoted table, INSERT/UPDATE/DELETE, half with interleaved positions, 1/6 across 0/FFFFFFxx->1/xx, 1/6 high positions, 1/6 whitelist, 1/6 blacklist, 1/4 configured through environment variables. Each case = one run of the REAL BINARY (main.go + app/runner.go wiring) with real flags --workers 1-4, --partition-method (4), --partition-count 1-4, --batcher-routing-method (2), --batch-flush-update-age / --batch-flush-max-age / --batcher-tick-rate 20-60 ms (either age may be the larger), --batch-queue-depth 1-4, --client-buffer-size default/16/256, kinesis --endpoint <fake>. Non-trivial: at least 2 sink calls and (a call was really held, or the stall was achieved, or at least 2 Kinesis partition keys, or a filter removed something); distinct by the case description. No Coq model is evaluated by this component."
 		if _, err := buildBinary(); err != nil {
 			rep.Notes = append(rep.Notes, "every case dropped: the pg-bifrost binary could not be built: "+tail(err.Error(), 1500))
 			rep.Distribution["dropped:build"] += len(cases)
@@ -1845,6 +1930,9 @@ func init() {
 			if c.MaxAge < c.UpdateAge {
 				core.Bump(rep, "config:max-age-below-update-age")
 			}
+			if i := c.errTxn(); i >= 0 {
+				core.Bump(rep, map[bool]string{true: "decode-error:in-first-transaction", false: "decode-error:after-a-commit"}[i == 0])
+			}
 			if r.Stalled != "" {
 				core.Bump(rep, "stall:"+r.Stalled)
 			}
@@ -1853,7 +1941,7 @@ func init() {
 			}
 			if c.Stall > 0 && !r.SelfExit {
 				core.Bump(rep, "c02-not-judged(stall shape)")
-			} else if !r.FinalAcked && !r.C02Neg && !r.SelfExit {
+			} else if !r.FinalAcked && !r.C02Neg && !r.SelfExit && !r.ErrLoop {
 				core.Bump(rep, "c02-undecided(time limit)")
 			}
 			calls, acks := 0, 0
